@@ -22,8 +22,11 @@ def main():
     demo = meta.get("demo_file")
     if isinstance(demo, list):
         demo = demo[0]
+    if not demo:
+        cands = [x for x in os.listdir(vdir) if x.endswith(".rs")]
+        demo = cands[0] if cands else None
     demo_src = os.path.join(vdir, os.path.basename(demo))
-    m = re.search(r"(crates/[\w\-/\.]+)", meta.get("demo_install", ""))
+    m = re.search(r"(crates/[\w\-/\.]+)", meta.get("demo_install", "") or meta.get("demo_cmd", ""))
     if not m:
         print("cannot parse demo_install:", meta.get("demo_install"))
         return 2
@@ -31,9 +34,11 @@ def main():
     if not dest.endswith(".rs"):
         dest = os.path.join(dest, os.path.basename(demo))
     dest = os.path.join(wt, dest)
-    demo_cmd = meta["demo_cmd"]
-    if demo_cmd.startswith("cd "):
-        demo_cmd = demo_cmd.split("&&", 1)[1].strip()
+    demo_cmd = re.split(r"\s{2,}\(|\s+#", meta["demo_cmd"])[0].strip()
+    if "&&" in demo_cmd and ("cd /" in demo_cmd or demo_cmd.startswith("cp ")):
+        parts = [x.strip() for x in demo_cmd.split("&&")]
+        keep = [x for x in parts if not x.startswith("cp ") and not x.startswith("cd /") and not x.startswith("mkdir")]
+        demo_cmd = " && ".join(keep)
     res = {}
     sh("git checkout -q -- . && git clean -fdq crates", wt)
     try:
